@@ -1,6 +1,7 @@
 """C08 - matching never raises on any tree."""
 from __future__ import annotations
 
+import copy
 import os
 import traceback
 import warnings
@@ -124,7 +125,7 @@ def build(case):
     els = doc.all_elements()
     for idx, attr, oi in case.get('odd', []):
         if els:
-            els[idx % len(els)].attrs[attr] = ODD[oi % len(ODD)]
+            els[idx % len(els)].attrs[attr] = copy.deepcopy(ODD[oi % len(ODD)])
     return doc, els
 
 
